@@ -29,6 +29,7 @@ type Ledger struct {
 	FailAt            map[int]bool
 	ReadFail          map[atree.SlabID]bool
 	ReadFailHits      int // number of reads that failed because of ReadFail
+	ReadFailFound     bool // the found flag a failing read returns next to its error (BaseStorage.Retrieve returns three values)
 	AllocFail         bool // GenerateSlabID fails (and allocates nothing)
 	Jitter            bool
 	n                 int
@@ -94,7 +95,7 @@ func (l *Ledger) Retrieve(id atree.SlabID) ([]byte, bool, error) {
 	l.jitter()
 	if l.ReadFail[id] {
 		l.ReadFailHits++
-		return nil, false, ErrInjected
+		return nil, l.ReadFailFound, ErrInjected
 	}
 	d, ok := l.Seg[id]
 	l.retrieved += len(d)
